@@ -45,8 +45,8 @@ theorem core_terminates (similar : Bytes → Bytes → Bool) (descend : Descend)
     | some sc =>
       simp only
       have := hd sc (findSubcommand_mem hf) rest
-        (if keep then { curIdx := p.curIdx, flagSubAt := p.flagSubAt, flagSubSkip := p.flagSubSkip } else {})
-      cases hdesc : descend sc rest (if keep then { curIdx := p.curIdx, flagSubAt := p.flagSubAt, flagSubSkip := p.flagSubSkip } else {}) with
+        (if keep then { curIdx := p.curIdx, flagSubAt := p.flagSubAt, flagSubSkip := p.flagSubSkip, flagSubConsumed := p.flagSubConsumed } else {})
+      cases hdesc : descend sc rest (if keep then { curIdx := p.curIdx, flagSubAt := p.flagSubAt, flagSubSkip := p.flagSubSkip, flagSubConsumed := p.flagSubConsumed } else {}) with
       | none => rw [hdesc] at this; simp at this
       | some r =>
         obtain ⟨ps, e⟩ := r
